@@ -356,6 +356,26 @@ def independent(ctx, f, L, ce):
     for c in f.calls(lambda r: r['block'] in body and r['path'] and re.search(r'Vec::<T, A>::(push|extend\w*|insert)|String::push\w*|fmt::Write::write_\w+', r['path'])):
         ok = False
         why.append('appends to an outer sequence at %s' % loc(c['span']))
+    # a value computed in one iteration that is still read after the loop (on a path that can end normally) makes the last
+    # iteration — i.e. the hash order — observable: `result = f(x)` in the body, `result` returned afterwards
+    for l, ds in f.defs().items():
+        in_body = [d_ for d_ in ds if d_[0] in body]
+        if not in_body or l == 0 and False:
+            continue
+        for (bi, si) in uses_of_local(f, l):
+            if bi in body:
+                continue
+            ks_ = f.exit_kinds_from(bi)
+            if not (ks_ & {'ok', 'ok_some', 'ok_none', 'some', 'none', 'passthrough', 'other'}):
+                continue            # only error / cleanup paths read it
+            # the iterator itself and drop flags are not values of an iteration
+            ty_ = f.local_ty(l)
+            if re.search(r'Iter<|IntoIter<|::Keys<|::Values<', ty_) or f.is_dropflag(l) or ty_ == '()':
+                continue
+            if any(bi in f.reach(d_[0]) for d_ in in_body):
+                ok = False
+                why.append('local `%s` (%s) is assigned inside the loop and read after it at %s' % (f.names.get(l, '_%d' % l), ty_[:40], loc(f.term(bi)['span'])))
+                break
     return ok, 'INDEPENDENT: each iteration only calls %s with the element and loop-invariant state; the callees never modify a registry%s' % (names, (' — BUT ' + ' | '.join(why)) if why else '')
 
 
@@ -621,6 +641,17 @@ def binding(ctx):
     callers = sorted({re.sub(r'(::\{closure#\d+\})+$', '', g.id) for g in P.fns.values() if rs.id in P.callees(g.id, kinds=('call', 'fnref'))})
     ctx.ob(['C11'], 'R-REACH', 'C11-D1|resolve_string-callers', set(callers) <= {rg.id, 'semantic::type_registry::TypeRegistry::padding_type'},
            'names are looked up only through resolve_grammar_type (and the u8 lookup of padding_type): callers %s' % [short(c) for c in callers], loc(rs.span))
+    # names are resolved only once every module is registered: nothing reachable from add_file / add_module / add_item calls the
+    # resolver (a name bound while the registry is half filled depends on the order in which the files were added)
+    early = []
+    for root in [g for g in P.fns.values() if re.search(r'SemanticState::(add_module|add_file|add_item|new)$', g.id)]:
+        clo_ = P.closure_of_calls(root.id, kinds=('call', 'closure', 'fnref'))
+        for x_ in clo_:
+            if re.search(r'TypeRegistry::(resolve_string|resolve_grammar_type)$', x_) or x_.endswith('Module::resolve_extern_values'):
+                if not (root.id.endswith('SemanticState::new')):
+                    early.append('%s reaches %s' % (short(root.id), short(x_)))
+    ctx.ob(['C09', 'C11', 'C19', 'C10'], 'R-REACH', 'C11-D1|resolution-only-after-registration', not early,
+           'no type name is resolved while modules are still being added (the resolver is reachable from build() only): %s' % sorted(set(early))[:3], loc(rs.span))
     # scope argument at every external call of resolve_grammar_type
     for g in P.fns.values():
         base = re.sub(r'(::\{closure#\d+\})+$', '', g.id)
@@ -887,7 +918,7 @@ def binding(ctx):
                 ok2 = bool(root_first and plain and mods and ck and okr2 and every2 and not S2['skips'])
             det += ' ;; stage1 %s stage2 %s' % (ok1, ok2)
         ok = ok1 and ok2
-    ctx.ob(['C11', 'C19'], 'R-EXPR', 'C11-D3|candidate-order', ok,
+    ctx.ob(['C11', 'C19', 'C10'], 'R-EXPR', 'C11-D3|candidate-order', ok,
            'candidates are tried as: imported types whose last segment is the name, last import first; else root::name (built-ins); else <module>::name for the scope modules in scope order; first hit wins: %s' % det, loc(rs.span))
     sc = [f for f in P.fns.values() if f.id.endswith('module::Module::scope')]
     oks = False
@@ -898,7 +929,7 @@ def binding(ctx):
             a, b = ch[0][2][0], ch[0][2][1]
             oks = is_call(a, 'iter::once') and any(strip(x) == ('field', ('arg', 1, 'self'), 'path') or (isinstance(x, tuple) and x[0] == 'field' and x[2] == 'path') for x in walk(a)) and \
                 bool(find_calls(b, 'Module::uses')) and not any(re.search(r'Iterator::(rev|skip|take|filter|step_by)$', c_[3]) for c_ in calls_in(e))
-    ctx.ob(['C11', 'C19'], 'R-EXPR', 'C11-D3|scope-order', oks, 'scope() = own module path followed by the uses in source order', loc(sc[0].span) if sc else '')
+    ctx.ob(['C11', 'C19', 'C13'], 'R-EXPR', 'C11-D3|scope-order', oks, 'scope() = own module path followed by the uses in source order', loc(sc[0].span) if sc else '')
     us = [f for f in P.fns.values() if f.id.endswith('module::Module::uses')]
     oku = bool(us) and len(us[0].exits()) == 1 and any(isinstance(x, tuple) and x[0] == 'field' and x[2] == 'uses' for x in walk(us[0].exits()[0]['expr']))
     ctx.ob(['C11'], 'R-EXPR', 'C11-D3|uses-source', oku, 'uses() is the parsed module\'s `uses` list itself', loc(us[0].span) if us else '')
